@@ -68,9 +68,9 @@ type rlOpts struct {
 	EnumNums bool `json:"enumNums"` // enum options carry explicit `number = i`
 	// Siblings: the message also holds required keys of both formats, a flattened object, a ruled timestamp and a
 	// unique array BEFORE the subject: whatever the compiler shares between fields of one kind must not leak into the subject
-	Siblings bool `json:"siblings"`
+	Siblings     bool `json:"siblings"`
 	ZeroPrefixed bool `json:"zeroPrefixed"` // the enum declares its zero option explicitly, spelled with the prefix (COLOR_UNSPECIFIED)
-	AcroName bool `json:"acroName"` // the subject property is spelled subjectID (proto subject_id): the JSON name is the declared one
+	AcroName     bool `json:"acroName"`     // the subject property is spelled subjectID (proto subject_id): the JSON name is the declared one
 }
 
 // rlSubject is the declared name of the subject property
